@@ -1016,6 +1016,56 @@ def build_all(res, rng, thorough, do, groups, executed_kind):
         do(c, stream="ini-robustness")
     c = new_case("small", False, "ini:unreadable"); c["ini"] = dict(ini_opts({"tests": "B101"}), unreadable=True)
     do(c, stream="ini-robustness")
+    settings_handover(res)
+
+
+HANDOVER_VALUES = [b"{}", b"[]", b"0", b"false", b"''", b"{unrelated_key: 1}", b"~", None]
+
+
+def settings_handover(res):
+    """Props.C13.settings_replace / settings_local / no_block_means_defaults on the real loader: what each check is *handed* as its settings.  For every plugin section
+    and every value a file can give it -- including the falsy non-null ones ({} [] 0 false ''), which a findings comparison cannot tell from defaults when the
+    check then raises (seeded change C13-m19 fell back to defaults on `not cfg`) -- every check owning that section receives exactly the given value, every other
+    check its generated defaults; null or an absent section means defaults.  YAML and TOML carriers where TOML can express the value."""
+    from bandit.core import config as b_config, test_set as b_test_set, extension_loader
+    dflt = default_settings()
+    d = tempfile.mkdtemp(prefix="bverif_hand_")
+    try:
+        for sec in sorted(dflt):
+            for raw in HANDOVER_VALUES:
+                docs = [("yaml", "cfg.yaml", b"" if raw is None else sec.encode() + b": " + raw + b"\n", None)]
+                if raw == b"{}":
+                    docs.append(("toml", "pyproject.toml", b"[tool.bandit." + sec.encode() + b"]\n", None))
+                if raw == b"{unrelated_key: 1}":
+                    docs.append(("toml", "pyproject.toml", b"[tool.bandit." + sec.encode() + b"]\nunrelated_key = 1\n", None))
+                for carrier, name, data, _ in docs:
+                    path = os.path.join(d, name)
+                    with open(path, "wb") as f:
+                        f.write(data)
+                    given = None if raw is None else yaml.safe_load(raw)
+                    try:
+                        cfg = b_config.BanditConfig(path if data else None)
+                        b_test_set.BanditTestSet(cfg)
+                    except Exception as e:      # rejected configurations are the other streams' business
+                        res.count("handover:rejected:" + type(e).__name__)
+                        continue
+                    finally:
+                        C.take_log()
+                    res.case(("handover", sec, raw, carrier), raw is not None, sample=None)
+                    res.count("handover:" + carrier)
+                    for p in extension_loader.MANAGER.plugins:
+                        tc = getattr(p.plugin, "_takes_config", None)
+                        if not tc:
+                            continue
+                        want = given if (tc == sec and given is not None) else dflt[tc]
+                        got = getattr(p.plugin, "_config", None)
+                        if got != want or type(got) is not type(want):
+                            res.violation("a check was handed settings other than the ones the file gives for its section (given value replaces the defaults; null/absent means defaults; other sections untouched)",
+                                          {"section": sec, "carrier": carrier, "file": data.decode(), "check": p.plugin._test_id, "check_section": tc, "handed": repr(got), "expected": repr(want)})
+    finally:
+        from bandit.core import config as b_config2, test_set as b_ts2
+        b_ts2.BanditTestSet(b_config2.BanditConfig())     # leave the shared plugin objects with their defaults
+        shutil.rmtree(d, ignore_errors=True)
 
 
 def generator_cases(res, rng, do, group, base_single, fired):
